@@ -65,19 +65,23 @@ type itemOut struct {
 	Resp     int  `json:"resp"`
 	Oriented bool `json:"oriented"`
 	Index    int  `json:"index"`
+	ReqSize  int  `json:"reqsize"`
+	RespSize int  `json:"respsize"`
 }
 
 type residueOut struct {
 	Key   string `json:"key"`
 	IsReq bool   `json:"isreq"`
 	Pid   int    `json:"pid"`
+	Size  int    `json:"size"`
 }
 
 type result struct {
-	Items   []itemOut    `json:"items"`
-	Residue []residueOut `json:"residue"`
-	Ends    []string     `json:"ends"`
-	Panic   string       `json:"panic,omitempty"`
+	Items   []itemOut      `json:"items"`
+	Residue []residueOut   `json:"residue"`
+	Ends    []string       `json:"ends"`
+	Panic   string         `json:"panic,omitempty"`
+	Fed     map[string]int `json:"fed,omitempty"`
 }
 
 type world struct {
@@ -135,7 +139,8 @@ func (w *world) collect() result {
 	for {
 		select {
 		case it := <-w.out:
-			o := itemOut{Req: pidOf(it.Pair.Request.Payload), Resp: pidOf(it.Pair.Response.Payload), Conn: -1, Index: int(it.Index)}
+			o := itemOut{Req: pidOf(it.Pair.Request.Payload), Resp: pidOf(it.Pair.Response.Payload), Conn: -1, Index: int(it.Index),
+				ReqSize: it.Pair.Request.CaptureSize, RespSize: it.Pair.Response.CaptureSize}
 			for _, c := range w.connList {
 				cs := w.conns[c]
 				if it.ConnectionInfo != nil && it.ConnectionInfo.ClientIP == cs.cid.SrcIP {
@@ -156,6 +161,7 @@ func (w *world) collect() result {
 		if gm, ok := v.(*api.GenericMessage); ok {
 			ro.IsReq = gm.IsRequest
 			ro.Pid = pidOf(gm.Payload)
+			ro.Size = gm.CaptureSize
 		} else {
 			ro.IsReq = true
 			ro.Pid = pidOf(v)
@@ -278,6 +284,7 @@ func runSeq(proto string, conns []int, script func(deliver func(s side, data []b
 		}
 	}
 	asking := map[side]bool{}
+	fed := map[string]int{}
 	deliver := func(s side, data []byte) bool {
 		if !asking[s] {
 			if !idle(s) {
@@ -285,6 +292,11 @@ func runSeq(proto string, conns []int, script func(deliver func(s side, data []b
 			}
 		}
 		asking[s] = false
+		d := "s"
+		if s.isClient {
+			d = "c"
+		}
+		fed[fmt.Sprintf("%d:%s", s.conn, d)] += len(data)
 		readers[s].feed <- data
 		// the message has been handled when the side asks again (or ends)
 		if idle(s) {
@@ -321,6 +333,7 @@ func runSeq(proto string, conns []int, script func(deliver func(s side, data []b
 		}
 	}
 	res = wd.collect()
+	res.Fed = fed
 	for _, s := range sides {
 		res.Ends = append(res.Ends, finished[s])
 		if strings.HasPrefix(finished[s], "panic") {
